@@ -68,7 +68,9 @@ ASSUMPTIONS = [
     "in-order traversal is only driven on strictly bifurcating (sub)trees (documented domain)",
     "age order: Node.ageorder_iter reads the 'age' attribute, set by the harness from reference heights; "
     "Tree.ageorder_node_iter is driven on ultrametric trees with integer edge lengths and computes ages itself; "
-    "monotonicity is judged on the reference ages",
+    "monotonicity is judged on the reference ages; on trees with <= 4 nodes ages are additionally exact non-float numbers "
+    "(int 2**53+k, Fraction(1,3)+k/10**30, int/float mix, every permutation of k over the nodes) assigned directly to "
+    "node.age, and monotonicity is judged by Python's exact comparison of those numbers",
     "'the seed' excluded by exclude_seed_node / exclude_seed_edge is the tree's seed node (a subtree start that has a parent is kept)",
     "state layer: the Newick string of a tree with labels t<i> / n<i> and integer lengths is exactly the bracket rendering "
     "(checked on the untouched tree first); edits that raise or leave a malformed tree are other properties' business and are "
@@ -108,6 +110,7 @@ def bounds(tier):
     else:
         b = {"max_nodes": 10, "all_subset_filters_up_to_nodes": 7, "all_height_patterns_up_to_internal": 4,
              "all_height_patterns_up_to_nodes": 9, "height_alphabet": [0, 1, 2]}
+    b["exact_nonfloat_ages_up_to_nodes"] = 4      # int 2**53+k, Fraction(1,3)+k/10**30, int/float mix; every permutation of k over the nodes
     b["large_representatives (exhaustive over this stated set, both tiers)"] = LARGE
     q = tier == "quick"
     b["state_between_calls"] = {
@@ -801,8 +804,57 @@ def run_tree_iter(pt, ctx, b):
         ctx.count("trees_with_unifurcating_seed")
 
 
+EXACT_AGE_KINDS = ("int53", "fraction", "int-float-mix")
+
+
+def set_exact_ages(env, kind, ks):
+    """exact non-float ages, assigned directly to node.age (the attribute Node.ageorder_iter documents it reads):
+    they differ by less than double precision, so only exact comparison orders them"""
+    import fractions
+    vals = []
+    for k in ks:
+        if kind == "int53":
+            v = 2 ** 53 + k
+        elif kind == "fraction":
+            v = fractions.Fraction(1, 3) + k * fractions.Fraction(1, 10 ** 30)
+        elif kind == "int-float-mix":
+            v = float(2 ** 53 + k) if k % 2 == 0 else 2 ** 53 + k      # even offsets are exact doubles
+        else:
+            raise ValueError(kind)
+        vals.append(v)
+    env.h = vals                 # the oracle compares these objects themselves (exact int / Fraction / float comparison)
+    for nd, v in zip(env.nodes, vals):
+        nd.age = v
+
+
+def run_exact_ages(pt, ctx, b):
+    n = len(Env(pt).nodes)
+    for kind in EXACT_AGE_KINDS:
+        for ks in itertools.permutations(range(n)):
+            env = Env(pt, set_ages=True)
+            set_exact_ages(env, kind, ks)
+            meta = {"exact_ages": [kind, list(ks)]}
+            ctx.count("exact_nonfloat_age_patterns")
+            for target, starts in (("Tree", [None]), ("Node", list(range(n)))):
+                for start in starts:
+                    fam = family(env, start, b, reduced=True)
+                    for (tg, meth) in AGE_KINDS:
+                        if tg != target:
+                            continue
+                        spec = SPECS[(tg, meth)]
+                        ncalls = 0
+                        for kwargs in spec["kws"]:
+                            fl = [None] + (ALIAS_FILTERS if spec.get("dep") else fam)
+                            for fd in fl:
+                                check(env, ctx, target, start, meth, kwargs, fd, meta)
+                            ncalls += len(fl)
+                        ctx.case((pt, ("exact", kind, ks), target, start, meth), nontrivial=n >= 2, n=ncalls)
+
+
 def run_tree_age(pt, ctx, b):
     probe = Env(pt)
+    if probe.n <= b["exact_nonfloat_ages_up_to_nodes"]:
+        run_exact_ages(pt, ctx, b)
     pats, full = height_patterns(probe, b)
     nontriv = probe.n >= 3
     if full:
@@ -1422,6 +1474,9 @@ def replay(case, ctx):
             (run_tree_iter if case.get("layer") == "iter" else run_tree_age)(pt, ctx, b)
             return
     env = Env(pt, case.get("heights"), set_ages=bool(case.get("ages_set")), desc=desc)
+    if case.get("exact_ages"):
+        env = Env(pt, set_ages=True)
+        set_exact_ages(env, case["exact_ages"][0], case["exact_ages"][1])
     target, start = case["target"], case["start"]
     if meth == "apply":
         check_apply(env, ctx, target, start, tuple(case["cbs"]), positional=bool(case.get("positional")))
@@ -1429,6 +1484,8 @@ def replay(case, ctx):
         check_len(env, ctx)
     else:
         meta = {}
-        if case.get("heights") is not None:
+        if case.get("exact_ages"):
+            meta = {"exact_ages": case["exact_ages"]}
+        elif case.get("heights") is not None:
             meta = {"heights": case["heights"], "ages_set": bool(case.get("ages_set"))}
         check(env, ctx, target, start, meth, dict(case.get("kwargs") or {}), case.get("filter"), meta)
